@@ -284,6 +284,17 @@ Proof.
   tsafe; first [apply tsafe_pure, pure_map_to_level_set | apply tsafe_pure, pure_map_rename
                | apply tsafe_image_rec].
 Qed.
+(** the public entry points disable reordering requests ([guarded]); with
+    requests already disabled the guard is the identity *)
+Lemma guarded_none {A} (m : MS A) s : last_len s = None → guarded m s = m s.
+Proof. intros H. unfold guarded. cbn [bind get]. by rewrite H. Qed.
+Lemma tsafe_guarded {A} (m : MS A) : tsafe m → tsafe (guarded m).
+Proof. intros Hm s r s' HI Hll. rewrite (guarded_none m s Hll). by apply Hm. Qed.
+Lemma tsafe_image_pub t s bn rn qbn q fa : tsafe (image_pub t s bn rn qbn q fa).
+Proof. apply tsafe_guarded, tsafe_image. Qed.
+Lemma tsafe_preimage_pub t s bn rn qbn q fa : tsafe (preimage_pub t s bn rn qbn q fa).
+Proof. apply tsafe_guarded, tsafe_preimage. Qed.
+
 Lemma tsafe_copy_bdd src u : tsafe (copy_bdd src u).
 Proof. unfold copy_bdd. tsafe. apply tsafe_copy_bdd_rec. Qed.
 
@@ -327,7 +338,8 @@ Ltac asafe := repeat first [assumption | asafe_step].
 Ltac alift := apply asafe_lift;
   first [ apply tsafe_var | apply tsafe_apply | apply tsafe_ite | apply tsafe_let
         | apply tsafe_quantify | apply tsafe_cube | apply tsafe_image | apply tsafe_preimage
-        | apply tsafe_copy_bdd
+        | apply tsafe_copy_bdd | apply tsafe_image_pub | apply tsafe_preimage_pub
+        | apply tsafe_guarded, tsafe_copy_bdd
         | apply tsafe_pure; first [ apply pure_support | apply pure_count | apply pure_getsuccZ
                                   | apply pure_var_at_level | apply pure_ref
                                   | apply pure_descendants | apply pure_level_of_var ] ].
